@@ -174,6 +174,25 @@ theorem centroidCrop_eq (mi : Option Nat) (batch : List (Frame α V ι E)) :
     rw [batched_eq, generateCrops_eq]
     exact filterMap_congr' _ _ _ (fun f hf => cropsOf_eq_frameGroup mi batch f hf)
 
+/-! ### bottom-up -/
+
+theorem bottomupRecords_eq {β γ : Type} (group : List (Peak α V) → β) (decode : E → β → γ)
+    (batch : List (Frame α V ι E)) :
+    bottomupRecords group decode batch
+      = batch.map fun f => (f.fidx, f.vidx, decode f.eff (group f.peaks)) := by
+  have hper : (List.range batch.length).map
+        (fun b => group (((flatFrom 0 batch).filter (fun e => e.1 == b)).map (·.2)))
+      = batch.map (fun f => group f.peaks) := by
+    apply List.ext_getElem
+    · simp
+    · intro i h1 h2
+      have hi : i < batch.length := by simpa using h1
+      simp only [List.getElem_map, List.getElem_range]
+      rw [sel_flatFrom]
+      simp [hi]
+  unfold bottomupRecords bottomupForward
+  simp only [hper, List.zip_map', List.map_map, Function.comp_def]
+
 /-! ### chunking -/
 
 theorem flatten_chunksFuel {τ : Type} (B : Nat) (hB : 1 ≤ B) (fuel : Nat) (l : List τ)
